@@ -38,7 +38,8 @@ ASSUMPTIONS = [
     "write fails) loses the will commands Close has not written yet: a race of the real code, an input of the model (`x c k`, Event.closeCut; "
     "C10F_wills_cut_short_violated), set by the harness from the number of frames that reached the proxy (it waits 3 s for the last will before "
     "it says so); counted as observation C10:wills-cut-short-at-close (a monitor failure C10:will-not-forwarded-at-close only under "
-    "VERIF_TRANS_STRICT); reproducer with real processes: tools/c10f_repro.py R6",
+    "VERIF_TRANS_STRICT); a second cause with the same outcome (Close closes the socket at once while answers are unread: RST discards the unsent tail) is "
+    "covered by the same input; reproducer with real processes and no proxy: tools/c10f_repro.py R6 (C10F_R6_N / C10F_R6_TRIES)",
     "a first short text command that the node's own engine refuses with STATE_ERROR is within the statement (refuse or forward): counted as "
     "observation C10:refused-first-text-command, not a monitor failure; C10:no-reply-after-link-loss is an observation (VERIF_TRANS_STRICT off)",
     "C10F_one_reply is proved under OkRun: the client does not reuse a RequestId on a connection; the leader answers a forwarded LOCK/UNLOCK at "
